@@ -89,6 +89,16 @@ def check_blend(P, R):
         minus = [x for x in prior_t if x[0] == -1 and has(x[1], [al])]
         other = [x for x in prior_t if x not in plain and x not in minus]
         R.check(bool(plain) and bool(minus) and not other, "BLEND.prior", f.key, what, pol.fmt_terms(prior_t)[:100], f"the prior term of the adapted {t.attr} is not weighted by (1 - alpha): {pol.fmt_terms(prior_t) or 'missing'}", st.lineno)
+        # numerator / denominator placement: data sums, prior parameters and alpha multiply (x * w and x / w look alike to the
+        # sign and unit rules when w is dimensionless)
+        pi = pol.Pol(P, f, opaque={"alpha"}, track_inv=True)
+        it = list(dict.fromkeys(pi.terms(blend, cst)))
+        pol.check_inverse(R, "BLEND.placement", f.key, it, direct=data_a + prior_a + [al] + neg_a, what=f"{t.attr}: data, prior and alpha stand in numerators", line=st.lineno)
+        if prior_arm is not None:
+            for na in neg_a:
+                pt = list(dict.fromkeys(p.terms(prior_arm, cst)))
+                nt = [(s_, a) for s_, a in pt if has(a, [na]) and not has(a, prior_a)]
+                R.check(bool(nt) and all(s_ == -1 for s_, a in nt), "BLEND.mean2", f.key, f"{t.attr} fallback: - adapted mean^2", pol.fmt_terms(nt)[:80], f"the squared adapted mean is not subtracted in the no-evidence fallback of the variances: {pol.fmt_terms(nt) or 'missing'}", st.lineno)
         for na in neg_a:
             nt = [(s_, a) for s_, a in terms if has(a, [na]) and not has(a, prior_a) and not has(a, data_a)]
             R.check(bool(nt) and all(s_ == -1 and not has(a, [al]) for s_, a in nt), "BLEND.mean2", f.key, f"{t.attr}: - adapted mean^2", pol.fmt_terms(nt)[:80], f"the squared adapted mean is not subtracted (unweighted) from the variance blend: {pol.fmt_terms(nt) or 'missing'}", st.lineno)
